@@ -2,6 +2,7 @@
 package c17
 
 import (
+	"math"
 	"fmt"
 
 	"github.com/biogo/hts/bgzf"
@@ -54,7 +55,13 @@ func runOne(t *tr.Writer, class string, in []bgzf.Chunk, ss []strat) {
 			out = s.f(a)
 			out2 = s.f(append([]bgzf.Chunk(nil), out...))
 		}()
-		t.Ev("merge", tr.M{"sig": "merge/" + s.name + "/" + class, "strat": s.name, "near": s.near,
+		// a threshold beyond every distance that occurs in the lists (file offsets stay below 2^30) is
+		// logged as 2^30: the property speaks of distances only, and TLC's integers have 32 bits
+		near := s.near
+		if near > 1<<30 {
+			near = 1 << 30
+		}
+		t.Ev("merge", tr.M{"sig": "merge/" + s.name + "/" + class, "strat": s.name, "near": near,
 			"in": logged, "out": enc(out), "out2": enc(out2), "res": res})
 	}
 }
@@ -82,7 +89,7 @@ func Run(out string) {
 			}
 		}
 	}
-	ss := strategies(nears)
+	ss := strategies(append(nears, 1<<48))
 	nmodel := 0
 	var rec func(cur []bgzf.Chunk)
 	rec = func(cur []bgzf.Chunk) {
@@ -103,7 +110,7 @@ func Run(out string) {
 	// real-scale random lists: file offsets up to 2^30, block offsets up to 65535,
 	// many touching / nested / duplicate / zero-length neighbours
 	rnd := tr.Rand(17)
-	rs := strategies([]int64{0, 1, 100, 65536, 1 << 20})
+	rs := strategies([]int64{0, 1, 100, 65536, 1 << 20, -1, 1<<47 - 1, 1 << 47, 1<<48 + 1, 1 << 62, math.MaxInt64})
 	for i := 0; i < nrand; i++ {
 		n := rnd.Intn(50)
 		var cur []bgzf.Chunk
